@@ -255,8 +255,11 @@ struct Canon {
                 // in-place deserialization of a value WRITES pointers into its slice, so a slice that leaves base_buffer is
                 // not a field "inside" the message even when it happens to stay inside the supplied blocks.
                 uint64_t off = (uint64_t)sl[k]->offset, len = sl[k]->length, bl = m.base_buffer._len;
-                if (!(off <= bl && len <= bl - off)) {
-                    rstring s = *sl[k] | m.base_buffer;
+                // what counts is what the LIBRARY resolves the slice to (slice|base_buffer): an out-of-range slice that it
+                // resolves to an empty string denotes nothing and is dereferenced nowhere
+                rstring s = *sl[k] | m.base_buffer;
+                bool resolved_inside = s._len == 0 || ((char*)s.addr() >= (char*)m.base_buffer._ptr && (char*)s.addr() + s._len <= (char*)m.base_buffer._ptr + bl);
+                if (!resolved_inside) {
                     problem("map-slice-outside-base-buffer", fmt("%s.index[%zu].%s = {offset=%llu,length=%llu} but base_buffer is %llu bytes: the library dereferences slice|base_buffer = [%p,+%zu) (%s the supplied bytes); slice::anchor checks bounds with assert only",
                                                                  path.c_str(), i, k ? "value" : "key", (unsigned long long)off, (unsigned long long)len, (unsigned long long)bl, s.addr(), s._len,
                                                                  rg && rg->in(s.addr(), s._len) ? "outside base_buffer but inside" : "outside"));
